@@ -701,7 +701,7 @@ func judgeConcurrent(r *simrt.Run, w *cacheWorld, who string) bool {
 	case linUnknown:
 		r.Probe("porcupine-unknown")
 	case linIllegal:
-		for lvl := 1; lvl <= 4; lvl++ {
+		for lvl := 1; lvl <= maxRelaxed; lvl++ {
 			switch checkCacheHistory(limit, lvl, ops) {
 			case linOK:
 				r.Fail(relaxedClass[lvl], "%s, limit=%d expire=%v: the history is only explained if %s:%s", who, limit, expire, relaxedWhat[lvl], describeOps(ops))
@@ -715,7 +715,7 @@ func judgeConcurrent(r *simrt.Run, w *cacheWorld, who string) bool {
 		// value under the lock and arms/moves the key's timer afterwards, so the value of one call can end
 		// up with the timer of the other.  Recognised by giving each such store the shorter of the expiries.
 		if alt, changed := shorterExpiryOfRacingStores(ops); changed {
-			for lvl := 0; lvl <= 4; lvl++ {
+			for lvl := 0; lvl <= maxRelaxed; lvl++ {
 				res := checkCacheHistory(limit, lvl, alt)
 				if res == linUnknown {
 					break
@@ -729,7 +729,7 @@ func judgeConcurrent(r *simrt.Run, w *cacheWorld, who string) bool {
 		}
 		// is the only thing wrong the instant of a lookup miss that justifies a loader run?
 		if loose, ok := w.history(true); ok {
-			for lvl := 0; lvl <= 4; lvl++ {
+			for lvl := 0; lvl <= maxRelaxed; lvl++ {
 				res := checkCacheHistory(limit, lvl, loose)
 				if res == linUnknown {
 					break
@@ -933,9 +933,13 @@ func cacheMulti(r *simrt.Run, tier string) {
 
 // classes of the known-finding family "the expiry task deletes by key" (cachemodel_test.go, cacheModel.relaxed)
 var relaxedClass = [...]string{"", "cache-fresh-set-deleted-by-expiry-of-previous-entry", "cache-fresh-set-deleted-by-expiry-of-deleted-or-evicted-entry",
-	"cache-fresh-set-deleted-by-orphan-timer-of-set-racing-del", "cache-fresh-set-deleted-by-second-expiry-task-in-flight"}
+	"cache-fresh-set-deleted-by-orphan-timer-of-set-racing-del", "cache-fresh-set-deleted-by-second-expiry-task-in-flight",
+	"cache-fresh-set-deleted-by-orphan-timer-of-set-racing-eviction"}
+
+const maxRelaxed = 5
 
 var relaxedWhat = [...]string{"", "a value set over an entry whose timer was due disappeared although it was neither deleted, evicted nor old enough to expire",
 	"a value set after the key's previous entry was deleted (Del) or evicted while that entry's timer was due disappeared although it was neither deleted, evicted nor old enough to expire",
 	"a Del overlapping a Set of the same key left that Set's timer behind and the timer later deleted a newer value that was neither deleted, evicted nor old enough to expire",
-	"two expiry tasks of one key were in flight at once (Sets over entries whose timers were due, e.g. SetWithExpire below the 1 s timer tick, which runs the expiry at once and asynchronously): the first removed the entry, the second deleted a value stored afterwards that was neither deleted, evicted nor old enough to expire"}
+	"two expiry tasks of one key were in flight at once (Sets over entries whose timers were due, e.g. SetWithExpire below the 1 s timer tick, which runs the expiry at once and asynchronously): the first removed the entry, the second deleted a value stored afterwards that was neither deleted, evicted nor old enough to expire",
+	"an LRU eviction caused by another client's store overlapped a Set of the evicted key and left that Set's timer behind; the timer later deleted a newer value that was neither deleted, evicted nor old enough to expire"}
